@@ -102,11 +102,24 @@ def run(ctx):
         schema = info.schema
         ctx.driver.add_schema(info)
         docs = [gen.gen_doc(rng, schema, budget=rng.choice([6, 12, 25])) for _ in range(ctx.budget(5, 10))]
+        marky = [x for x in (gen.gen_marky_doc(rng, schema) for _ in range(ctx.budget(2, 4))) if x is not None]
+        docs = docs + marky
+        planned = []
         for d in docs:
             for _ in range(ctx.budget(12, 30)):
+                # documents made of varied mark runs get mostly range mark operations
+                planned.append((d,) + tuple(ops.plan_op(rng, info, d, docs, ["add_mark", "remove_mark"] if any(d is x for x in marky) and rng.random() < 0.8 else kinds)))
+        for _ in range(ctx.budget(4, 10)):
+            # aimed: add a mark over nodes that carry a mark it excludes, some of which cannot take it
+            case = gen.gen_exclusion_case(rng, schema)
+            if case is not None:
+                d0, f0, t0, m0 = case
+                planned.append((d0, "add_mark", [f0, t0, m0], (lambda f0, t0, m0: lambda tr: tr.add_mark(f0, t0, m0))(f0, t0, m0)))
+                ctx.count("aimed_exclusion_cases")
+        for (d, name, args, thunk) in planned:
+            for _once in (0,):
                 if ctx.time_left() < 0:
                     break
-                name, args, thunk = ops.plan_op(rng, info, d, docs, kinds)
                 tr = Transform(d)
                 st, val, added = ops.run_op(tr, thunk)
                 replay = {"schema": info.name, "doc": d.to_json(), **ops.describe(name, args)}
